@@ -55,6 +55,16 @@ func realMain() int {
 		fmt.Printf("selftest ok: %d random term pairs evaluated (simplified vs raw, 8 models each), %d proved equivalent by z3\n", n, k)
 	case "conform":
 		cmdConform(os.Args[2:])
+	case "funcs":
+		// gosx funcs: every function of the library packages (harness overlay excluded)
+		p, err := sx.Load("/repo", verifDir+"/harness", "", "engine")
+		if err != nil {
+			fmt.Println(err)
+			return 2
+		}
+		for _, n := range p.LibraryFuncs() {
+			fmt.Println(n)
+		}
 	default:
 		fmt.Println("unknown command")
 		return 2
